@@ -28,7 +28,7 @@ def sim_cases():
         g.op_apply(limits=True), g.op_apply(), g.op_map(), g.op_imap(),
         g.work, g.work, g.work, g.feed, g.feed_fault, g.tick, g.tick, g.adv,
         g.adv, g.die_any, g.dier, g.dier0, g.lastgasp, g.wexit, g.dup, g.dup, g.scan, g.scan,
-        g.discard, g.tjob, g.tjob, g.hterm, g.close, g.scanrace, g.scanrace,
+        g.discard, g.tjob, g.tjob, g.hterm, g.close, g.scanrace, g.scanrace, g.parkrecycle,
     ]
     return g.history(cfg, ops, max_ops=60, min_ops=12)
 
